@@ -186,6 +186,15 @@ def gen_cases(prop, u, seed, tier, probe=None):
             case(i, 0, '-', v, 'baseline')
             for k in range(n):
                 case(i, 0, 'trunc:%d' % k, v, 'trunc', total=n)
+            # the file-backed entry points that do not zero-extend: load_full and mmap of the truncated file
+            # (the two copying loaders zero-extend up to the next multiple of 64 / 16: listed for the record)
+            hx = ps[0]
+            cuts = sorted(set([0, 1, 28, 29, 36, n // 2, n - 8, n - 1] + [rng.randrange(n) for _ in range(4 if quick else 16)]))
+            cs.add('fload %d full %s' % (i, hx), kind='fload', ti=i, loader='full', cut=None, total=n, family='file-whole')
+            for k in cuts:
+                if not 0 <= k < n: continue
+                for l in ('full', 'map', 'mem', 'mmap'):
+                    cs.add('fload %d %s %s' % (i, l, hx[:2 * k] if k else '-'), kind='fload', ti=i, loader=l, cut=k, total=n, family='file-trunc-' + l)
     elif prop == 'C12':
         plan = []
         for i, t in enumerate(u.types):
